@@ -13,9 +13,11 @@
       *how many* permutations there are) and the list of first images; `findUb`/`estimate` receive
       one such pair per direction;
     * `keyMul len diam` = the product `len(K) * diam_X` of `find_largest_size_bounded_curvature`
-      *as computed in the dtype of the distance matrix* (`diam_X` is an `np.int8` scalar for graphs
-      of diameter ≤ 127, so the product wraps modulo 2^8 — see `wrapMul`).  The theorems hold for
-      every `keyMul`.
+      *as the tree under test computes it*: exactly (`len(K) * int(diam_X)`, the repaired code;
+      `wrapMul 64`) or in the dtype of the distance matrix (the unrepaired code: `diam_X` is an
+      `np.int8` scalar for graphs of diameter ≤ 127, so under NumPy 2 the product wraps modulo 2^8
+      — `wrapMul 8` — and is an `OverflowError` once `len(K) ≥ 128`, see `keyMulOld`).  The
+      theorems hold for every `keyMul`.
 
   The model rejects what the code rejects: an empty permutation list is `StopIteration`
   (`Err.stopIteration`); an index outside a matrix is `IndexError` (`Err.index`; the driver checks
@@ -28,6 +30,7 @@ abbrev Mat := List (List Nat)
 inductive Err where
   | stopIteration
   | index
+  | overflow
   deriving DecidableEq, Repr
 
 /-- entry `D[i, j]`; callers guarantee `i, j` in range (driver: shape check; theorems: `Square`) -/
@@ -280,6 +283,11 @@ def wrapMul (bits : Nat) (len diam : Nat) : Int :=
   let m : Int := (2 : Int) ^ bits
   let h : Int := (2 : Int) ^ (bits - 1)
   ((((len * diam : Nat) : Int) + h) % m) - h
+
+/-- the product of the *unrepaired* code on int8 matrices under NumPy 2 (`Python int * np.int8`):
+    `OverflowError` when the Python int `len(K)` does not fit int8, silent wrap-around otherwise -/
+def keyMulOld (len diam : Nat) : Except Err Int :=
+  if len > 127 then .error .overflow else .ok (wrapMul 8 len diam)
 
 /-! ### exhaustive reference values (used by the driver ops `mgh.spec`, `mgh.feas.exh`) -/
 
